@@ -31,7 +31,7 @@ enum { SEC_QD = 0, SEC_AN = 1, SEC_NS = 2, SEC_AR = 3 };
 // ------------------------------------------------------------------------------------------------ reference: names
 struct NameDec {
   bool ok = false;          // lenient reading succeeded
-  bool strict = false;      // ... and it is RFC-conformant
+  bool strict = false;      // ... and it is RFC-conformant (meaningful only when ok)
   std::string text;         // labels joined with '.', raw bytes, root = ""
   size_t next = 0;          // offset of the byte after the name in the original stream
   int pointers = 0;         // compression pointers followed
@@ -72,9 +72,8 @@ inline NameDec refName(const uint8_t *p, size_t n, size_t at) {
     wire += 1 + len;
     pos += 1 + len;
   }
-  if (wire > 255) r.strict = false;
+  if (wire > 255) r.strict = false;                                  // RFC 1035 2.3.4: 255 octets or less
   r.ok = true;
-  if (!r.ok) r.strict = false;
   return r;
 }
 
@@ -120,7 +119,7 @@ inline RefMsg refParse(const uint8_t *p, size_t n) {
   size_t pos = 12;
   for (unsigned i = 0; i < m.cnt[0]; ++i) {
     NameDec nd = refName(p, n, pos);
-    if (!nd.ok) { m.why = std::string("question: ") + nd.why; m.cut_in_record = pos < n || i < m.cnt[0]; m.end = pos; return m; }
+    if (!nd.ok) { m.why = std::string("question: ") + nd.why; m.cut_in_record = true; m.end = pos; return m; }
     if (nd.next + 4 > n) { m.why = "question cut off"; m.cut_in_record = true; m.end = pos; return m; }
     RefQ q; q.name = nd.text; q.name_strict = nd.strict; q.type = rd16(p + nd.next); q.klass = rd16(p + nd.next + 2);
     if (!nd.strict) { strict = false; notstrict("question name not RFC-conformant"); }
